@@ -796,6 +796,27 @@ static void app_servers_csv(char *out, size_t outlen, const int *idx, int n)
   }
 }
 
+/* the same comma-separated entries, possibly in another order */
+static int app_same_tokens(const char *a, const char *b)
+{
+  char        ta[1024], *sa = NULL, *t;
+  int         na = 0, nb = 0;
+  const char *p;
+  snprintf(ta, sizeof(ta), "%s", a);
+  for (t = strtok_r(ta, ",", &sa); t != NULL; t = strtok_r(NULL, ",", &sa)) {
+    const char *f = strstr(b, t);
+    size_t      l = strlen(t);
+    na++;
+    if (f == NULL || (f != b && f[-1] != ',') || (f[l] != 0 && f[l] != ',')) {
+      return 0;
+    }
+  }
+  for (p = b; *p; p++) {
+    nb += (*p == ',');
+  }
+  return na == nb + 1;
+}
+
 static int app_channel_init(void)
 {
   struct ares_options             o;
@@ -1259,6 +1280,20 @@ static void app_do_action(app_act_t *a)
         ares_channel_t *d = NULL;
         sim_note("api_dup");
         if (ares_dup(&d, app_channel) == ARES_SUCCESS && d != NULL) {
+          /* the copy's server list is the configured one, in the configured order - whatever order of preference the
+           * original's servers are in right now because of their failures */
+          char  want[1024];
+          char *got = ares_get_servers_csv(d), *mine = ares_get_servers_csv(app_channel);
+          app_servers_csv(want, sizeof(want), app_cfg.srv_cfg, app_cfg.nsrv_cfg);
+          sim_note("rule_dup_server_order");
+          if (got != NULL && strcmp(got, want) != 0 && strlen(got) == strlen(want) && app_same_tokens(got, want)) {
+            vh_violation("cfg16:simdup:server-order", "configured servers %s, the copy made by ares_dup() has %s (the original lists %s)", want, got,
+                         mine ? mine : "-");
+          } else if (mine != NULL && strcmp(mine, want) != 0 && strlen(mine) == strlen(want) && app_same_tokens(mine, want)) {
+            vh_violation("cfg16:simcsv:server-order", "configured servers %s, ares_get_servers_csv() reports %s", want, mine);
+          }
+          ares_free_string(got);
+          ares_free_string(mine);
           ares_destroy(d);
         }
         if (a->arg) {
